@@ -11,9 +11,13 @@
    chk_eval  : Model/TALESEval.evaluate, with the REAL traversePath results (recorded per call) as
                its traversal oracle and the real eval results as its python oracle, returns what the
                REAL Context.evaluate returned and performs as many python evaluations;
-   chk_out   : tagAsText / text and structure content / cmdAttributes output vs Model/TALOut.v. *)
+   chk_out   : tagAsText / text and structure content / cmdAttributes output vs Model/TALOut.v;
+   chk_spec  : for templates with condition / content / replace / attributes / omit-tag: the REAL program
+               is read back as a forest (parse_forest) and BOTH the tree-walking specification
+               (spec_forest) and the data instance of the VM (expand1), with the REAL results of
+               Context.evaluate(expr, originalAtts) as evaluator, give the REAL expansion. *)
 From Coq Require Import String.
-From PG Require Import Lib.Str Model.TALES Model.TALProg Model.TALVM Model.TALCompile Model.TALESEval Model.TALOut.
+From PG Require Import Lib.Str Model.TALES Model.TALProg Model.TALVM Model.TALCompile Model.TALESEval Model.TALOut Model.TALSpec.
 Local Open Scope N_scope.
 
 Definition chk_wf (c : program * (symtab * macrotab)) : bool :=
@@ -145,3 +149,29 @@ Definition chk_out (c : (str * (list (str * str) * str)) * (str * (str * (str * 
   str_eqb (start_tag_text P [] ++ content_text true v ++ end_tag_text P) o2 &&
   str_eqb (start_tag_text P (apply_attributes [(lit "title"%string, AValue v)] [(lit "id"%string, lit "i"%string)])
            ++ lit "x"%string ++ end_tag_text P) o3.
+
+(* ---- specification and data VM vs the real expansion ---- *)
+Definition atts_eqb (a b : list (str * str)) : bool := list_eqb pair_eqb a b.
+Fixpoint ev_lookup (t : list ((str * list (str * str)) * cval)) (e : str) (orig : list (str * str)) : cval :=
+  match t with
+  | [] => cv_miss
+  | ((q, o), v) :: r => if str_eqb q e && atts_eqb o orig then v else ev_lookup r e orig
+  end.
+
+(* ((program, (symtab, macros)), (evaluations, real output)) *)
+Definition chk_spec (c : (program * (symtab * macrotab)) * (list ((str * list (str * str)) * cval) * str)) : bool :=
+  let '((p, (t, _)), (tbl, real)) := c in
+  let ev := ev_lookup tbl in
+  let nothing := fun v : cval => fst (snd v) in
+  let dflt := fun v : cval => fst (snd (snd v)) in
+  let truth := fun v : cval => snd (snd (snd v)) in
+  let text := fun v : cval => fst v in
+  match parse_forest (S (List.length p)) t 0 p with
+  | Some (f, []) =>
+      str_eqb (spec_forest cval ev nothing dflt truth text f) real &&
+      match expand1 cval ev nothing dflt truth text p t (4 * List.length p + 8) (mkCtx (mkSc [] [] [] []) []) with
+      | Done mf => str_eqb (d_out (dat _ mf)) real
+      | _ => false
+      end
+  | _ => false
+  end.
